@@ -234,6 +234,11 @@ impl SemaphoreState {
                     wait_node.task = Some(cx.waker().clone());
                     wait_node.state = PollState::Waiting;
                     self.waiters.add_front(wait_node);
+                    // The permits which had been reserved for this waiter when
+                    // it got notified might be sufficient for older waiters.
+                    // This waiter can not be woken here, since its request
+                    // exceeds the available permits.
+                    self.wakeup_waiters();
                     Poll::Pending
                 }
             }
